@@ -6,8 +6,27 @@ using oracle::Gens; using oracle::Gen; using oracle::CsSet;
 
 namespace {
 struct SymPoly { std::unique_ptr<Polyhedron> ph; RefSet R; SymPoly(unsigned n) : R(n) {} };
+RefSet refset_of(const Constraint_System& cs, unsigned n) {
+  RefSet R(n);
+  for (Constraint_System::const_iterator c = cs.begin(); c != cs.end(); ++c) { std::vector<expr> a; for (unsigned j = 0; j < n; ++j) { Coefficient k = j < c->space_dimension() ? c->coefficient(Variable(j)) : Coefficient(0); a.push_back(term(k)); }
+    Coefficient b = c->inhomogeneous_term(); R.add(a, term(b), c->is_equality() ? 0 : c->is_strict_inequality() ? 2 : 1); }
+  return R;
+}
 SymPoly make_poly(const std::string& pfx, unsigned n, unsigned m, long B, long Bb, bool nnc, bool touch) {
   SymPoly sp(n);
+  if (symrt::param("gen", 0)) {
+    // operand given by generators: a point with a symbolic divisor, then m-1 more generators (point or ray);
+    // its reference set is the constraint description it reports before the operation (C01 checks that description).
+    Generator_System gs;
+    { Linear_Expression e; for (unsigned j = 0; j < n; ++j) e += symrt::input(pfx + S("p", j), -B, B) * Variable(j); gs.insert(point(e, symrt::input(pfx + "pd", 1, 2))); }
+    for (unsigned i = 1; i < m; ++i) { Linear_Expression e; expr nz = bval(false); for (unsigned j = 0; j < n; ++j) { mpz_class c = symrt::input(pfx + S("g", i, j), -B, B); nz = nz || term(c) != ival(0); e += c * Variable(j); }
+      if (symrt::flag(pfx + S("ray", i))) { symrt::assume(nz); gs.insert(ray(e)); } else gs.insert(point(e, symrt::input(pfx + S("gd", i), 1, 2))); }
+    sp.ph.reset(nnc ? static_cast<Polyhedron*>(new NNC_Polyhedron(gs)) : static_cast<Polyhedron*>(new C_Polyhedron(gs)));
+    if (touch && symrt::flag(pfx + "cons")) (void) sp.ph->minimized_constraints();
+    Polyhedron* copy = nnc ? static_cast<Polyhedron*>(new NNC_Polyhedron(static_cast<const NNC_Polyhedron&>(*sp.ph))) : static_cast<Polyhedron*>(new C_Polyhedron(static_cast<const C_Polyhedron&>(*sp.ph)));
+    sp.R = refset_of(copy->constraints(), n); delete copy;
+    return sp;
+  }
   sp.ph.reset(nnc ? static_cast<Polyhedron*>(new NNC_Polyhedron(n)) : static_cast<Polyhedron*>(new C_Polyhedron(n)));
   for (unsigned i = 0; i < m; ++i) { SymRow r = sym_row(S(pfx, i), n, B, Bb, nnc ? 3 : 2); sp.ph->add_constraint(row_constraint(r)); ref_add(sp.R, r); }
   if (touch && symrt::flag(pfx + "gens")) (void) sp.ph->minimized_generators();   // vary which description is up to date
@@ -282,6 +301,44 @@ SYMRT_HARNESS(C02_op) {
       vs_formula(cp, n, [&](const Point& x) { return e ? bval(false) : RP.closure_contains(x); }, tag + " C_Polyhedron(NNC_Polyhedron)"); }
     else { NNC_Polyhedron np(static_cast<const C_Polyhedron&>(ph));
       vs_formula(np, n, [&](const Point& x) { return RP.contains(x); }, tag + " NNC_Polyhedron(C_Polyhedron)"); }
+    break; }
+  case 21: { // positive_time_elapse_assign: { p + t q : p in P, q in Q, t > 0 }
+    SymPoly Q = make_poly("q", n, mq, B, Bb, nnc, touch);
+    Gens GP = Gens::from(ph.generators(), n), GQ = Gens::from(Q.ph->generators(), n);
+    Gens D(n);
+    if (GP.has_point() && GQ.has_point()) {
+      for (auto& g : GP.g) D.g.push_back(Gen(g.kind == 0 ? 1 : g.kind, g.c));                 // P itself is only in the closure
+      for (auto& g : GQ.g) D.g.push_back(Gen(g.kind <= 1 ? 2 : g.kind, g.c));                 // directions of Q
+      for (auto& p : GP.g) if (p.kind == 0) for (auto& q : GQ.g) if (q.kind == 0) { Point c; for (unsigned j = 0; j < n; ++j) c.push_back(p.c[j] + q.c[j]); D.g.push_back(Gen(0, c)); }
+    }
+    if (nnc) static_cast<NNC_Polyhedron&>(ph).positive_time_elapse_assign(static_cast<const NNC_Polyhedron&>(*Q.ph));
+    else static_cast<C_Polyhedron&>(ph).positive_time_elapse_assign(static_cast<const C_Polyhedron&>(*Q.ph));
+    { CsSet rs(ph.constraints(), n); Point x = oracle::fresh_point(n), y = oracle::fresh_point(n); expr t = symrt::fresh_real("t");
+      Point z; for (unsigned j = 0; j < n; ++j) z.push_back(x[j] + t * y[j]);
+      symrt::check(!(RP.contains(x) && Q.R.contains(y) && t > rval(0) && !rs.contains(z)), tag + " positive_time_elapse_assign: p + t*q (t > 0) is missing"); }
+    if (nnc) vs_gens(ph, D, tag + " positive_time_elapse_assign");
+    else { // closed polyhedra: the result is the smallest closed polyhedron containing the set, i.e. the closure of D
+      for (auto& g : D.g) if (g.kind == 1) g.kind = 0;
+      vs_gens(ph, D, tag + " positive_time_elapse_assign (closed)"); }
+    unchanged(*Q.ph, Q.R, tag);
+    break; }
+  case 22: { // generalized_affine_image(lhs, relsym, rhs) / generalized_affine_preimage(lhs, relsym, rhs)
+    int rk = symrt::choose("rel", nnc ? 5 : 3);
+    SymExpr l = sym_expr("l", n, B), r = sym_expr("r", n, B);
+    bool pre = symrt::flag("pre");
+    Polyhedron* orig = nnc ? static_cast<Polyhedron*>(new NNC_Polyhedron(static_cast<const NNC_Polyhedron&>(ph))) : static_cast<Polyhedron*>(new C_Polyhedron(static_cast<const C_Polyhedron&>(ph)));
+    std::unique_ptr<Polyhedron> og(orig);
+    if (pre) ph.generalized_affine_preimage(l.le(), relsym(rk), r.le()); else ph.generalized_affine_image(l.le(), relsym(rk), r.le());
+    CsSet rs(ph.constraints(), n);
+    // documented relation: the variables occurring in lhs may change arbitrarily subject to lhs(x') rel rhs(x) (image)
+    // resp. lhs(x) rel rhs(x') (preimage); the other variables keep their value.  Soundness side (quantifier-free):
+    Point x = oracle::fresh_point(n), y = oracle::fresh_point(n);
+    expr same = bval(true); bool lhs_has_var = false;
+    for (unsigned j = 0; j < n; ++j) same = same && z3::implies(l.ta[j] == rval(0), x[j] == y[j]);
+    if (!pre) symrt::check(!(RP.contains(x) && same && relf(rk, l.at(y), r.at(x)) && !rs.contains(y)), tag + " generalized_affine_image(lhs,rel,rhs): a related point is missing");
+    else symrt::check(!(RP.contains(y) && same && relf(rk, l.at(y), r.at(x)) && !rs.contains(x)), tag + " generalized_affine_preimage(lhs,rel,rhs): a point of the preimage is missing");
+    (void) lhs_has_var;
+    symrt::require(ph.OK(), tag + ": OK()");
     break; }
   case 20: { // refine_with_constraint / add_constraints / refine_with_congruence (equalities only constrain polyhedra)
     SymRow r = sym_row("r", n, B, Bb, 3);
